@@ -30,6 +30,10 @@ static uint64_t pool_evstart[MAXPOOL][MAXP];   /* holdings when the current even
 static double t_before;
 static uint32_t main_csr;
 static bool cond_observes[MAXCOND][MAXGUARD];
+/* timers that fired (delivered to their owner), by event handle: survives a restart of the owner, whose cause table is reset */
+#define MAXFIRED 512
+static struct { uint64_t h; double t; } fired[MAXFIRED]; static int nfired;
+static bool timer_fired_at(uint64_t h, double t) { for (int i = 0; i < nfired && i < MAXFIRED; i++) if (fired[i].h == h && fired[i].t == t) return true; return false; }
 static void wk_reset(void);
 static void wk_return(proc *pr, int64_t ret);
 static int last_runner;          /* process that ran during the current event, -1 none */
@@ -68,6 +72,7 @@ void mon_reset(void)
     memset(ngbefore, 0, sizeof ngbefore);
     memset(cond_observes, 0, sizeof cond_observes);
     wk_reset();
+    nfired = 0;
     memset(rec_cand, 0, sizeof rec_cand);
     main_csr = _mm_getcsr() & ~0x3fu;
 }
@@ -198,6 +203,7 @@ static bool match_cause(proc *pr, int64_t ret, int want_kind, int want_ref)
     }
     if (best) {
         best->state = CS_DELIVERED;
+        if (best->kind == CK_TIMER) { fired[nfired % MAXFIRED].h = best->handle; fired[nfired % MAXFIRED].t = now; nfired++; }
         if (best->kind == CK_INTR && cmb_event_queue_count() == 0) PROBE("probe.interrupt_with_otherwise_empty_queue");
         if (best->kind == CK_TIMER && cmb_event_queue_count() == 0) PROBE("probe.timer_with_otherwise_empty_queue");
         {   /* was a grant already on its way when this cause got there first? */
@@ -235,6 +241,14 @@ static bool match_cause(proc *pr, int64_t ret, int want_kind, int want_ref)
     }
     viol("C04", sig, "process %d: %s returned %" PRId64 " at t=%g with no matching undelivered cause (call at t=%g)",
          pr->id, opname[pr->op], ret, now, pr->call_t);
+    /* the cancelled code of a condition cancel belongs to the wait it ended, not to whatever the process does next */
+    if (ret == CMB_PROCESS_CANCELLED)
+        for (int i = 0; i < pr->ncs; i++)
+            if (pr->cs[i].kind == CK_GCANCEL && pr->cs[i].state == CS_DEAD && pr->cs[i].ref == GC_COND) {
+                viol("C13", "cancelled-code-reached-a-later-call", "process %d was cancelled from a condition at t=%g, left that wait for another reason, and received the cancelled code at t=%g in %s",
+                     pr->id, pr->cs[i].due, now, opname[pr->op]);
+                break;
+            }
     return false;
 }
 
@@ -292,6 +306,23 @@ void mon_call_ret(proc *pr, int64_t ret)
         else match_cause(pr, ret, 0, 0);
         kill_call_causes(pr, CK_EV);
         break;
+    case OP_WAITT: {
+        const uint64_t h = pr->waitt_handle;
+        const bool fired_now = timer_fired_at(h, now);
+        if (ret == CMB_PROCESS_SUCCESS || ret == CMB_PROCESS_CANCELLED) {
+            if (cmb_event_is_scheduled(h))
+                viol("C04", "waitevent-returned-early", "process %d: wait for timer event %" PRIu64 " of process %d returned %" PRId64 " at t=%g while the event is still scheduled", pr->id, h, pr->obj, ret, now);
+            else if (ret == CMB_PROCESS_SUCCESS) {
+                if (!fired_now)
+                    viol("C04", "waitevent-spurious-success", "process %d: wait for timer event %" PRIu64 " of process %d returned success at t=%g but that timer did not fire now", pr->id, h, pr->obj, now);
+                else PROBE("c04.awaited_timer_event_fired");
+            } else {
+                if (fired_now)
+                    viol("C04", "waitevent-cancelled-but-executed", "process %d: wait for timer event %" PRIu64 " of process %d returned cancelled at t=%g although the timer fired", pr->id, h, pr->obj, now);
+                else PROBE("c04.awaited_timer_event_cancelled");
+            }
+        } else match_cause(pr, ret, 0, 0);
+        break; }
     case OP_ACQ: case OP_PRE: {
         const int r = pr->obj;
         if (ret == CMB_PROCESS_SUCCESS) {
@@ -884,6 +915,8 @@ void mon_boundary_eval(void)
         if (pr->op == OP_WAITP && PR[pr->obj].finished && !PR[pr->obj].start_pending && pr->arg == 0 && PR[pr->obj].end_time <= now
             && PR[pr->obj].end_seq >= pr->callseq * 0)
             pend_viol("C09", "waiter-not-resumed", "process %d is still suspended waiting for process %d, which ended at t=%g", i, pr->obj, PR[pr->obj].end_time);
+        if (pr->op == OP_WAITT && !cmb_event_is_scheduled(pr->waitt_handle))
+            pend_viol("C04", "waitevent-overdue", "process %d is still suspended waiting for timer event %" PRIu64 " of process %d, which has been executed or cancelled", i, pr->waitt_handle, pr->obj);
         if (pr->op == OP_WAITE && !W.hev[pr->obj].pending && (W.hev[pr->obj].executed || W.hev[pr->obj].cancelled))
             pend_viol("C04", "waitevent-overdue", "process %d is still suspended waiting for event %d, which is done", i, pr->obj);
     }
